@@ -402,6 +402,7 @@ func TestC15_P_ShardedDirs(t *testing.T) {
 		}
 		ls := st.LinkSystem()
 		st.RequireSession = len(names)%2 == 1 // (the store serves only loads that carry the request's context)
+		st.HonorCtx = true                    // (and refuses loads whose context is already done)
 		for _, reifier := range []string{"unixfs", "unixfs-preload", "Load+NodeReifier", "unixfs+AttemptHAMTShardFromNode(another link system)"} {
 			var cerr error
 			load := func() (datamodel.Node, error) {
